@@ -20,6 +20,8 @@ import DriverLib.C16
 import DriverLib.C17
 import DriverLib.C18
 import DriverLib.C15
+import DriverLib.C12
+import DriverLib.C07
 open Lean Drv
 
 def handlers : List (String → Json → Option (R Json)) := [
@@ -38,6 +40,8 @@ def handlers : List (String → Json → Option (R Json)) := [
   Drv.C17.handle,
   Drv.C18.handle,
   Drv.C15.handle,
+  Drv.C12.handle,
+  Drv.C07.handle,
   fun _ _ => none]
 
 def dispatch (line : String) : Json :=
